@@ -97,6 +97,8 @@ def opOfJson (j : Json) : Except String Op := do
   | "dmut" => pure (.dmut (← pathOfJson j) (← dmutOfJson (← j.getObjVal? "m")))
   | "read" => pure (.read (← pathOfJson j))
   | "touch" => pure .touch
+  | "endSession" => pure .endSession
+  | "delete" => pure .delete
   | "other" => pure .other
   | "assign" => pure (.assign (← argT j "v"))
   | "flush" => pure .flush
@@ -106,12 +108,14 @@ def opOfJson (j : Json) : Except String Op := do
 
 def strOfErr : Err → String
   | .index => "IndexError" | .key => "KeyError" | .value => "ValueError" | .type => "TypeError" | .nav => "nav"
+  | .session => "DatabaseSessionIsOver" | .deleted => "OperationWithDeletedObjectError"
 
 def jsonOfSt (s : St) (e : Option Err) : Json :=
   Json.mkObj [("err", match e with | none => .null | some e => .str (strOfErr e)),
               ("dirty", .bool s.dirty), ("doc", jsonOfT s.doc), ("db", jsonOfT s.db), ("allW", .bool (allW s.doc)),
               ("status", .str (match s.status with
-                | .created => "created" | .loaded => "loaded" | .inserted => "inserted" | .updated => "updated" | .modified => "modified"))]
+                | .created => "created" | .loaded => "loaded" | .inserted => "inserted" | .updated => "updated" | .modified => "modified"
+                | .deleted => "deleted" | .over => "over"))]
 
 def runTrace (cfg : Cfg) : List Op → St → List Json
   | [], _ => []
